@@ -39,7 +39,7 @@ CHECKS = {
                       'admission, lost wake-ups and spinning are violations. Samples schedules; not a proof.',
         'level_note': 'Trusts CPython asyncio sleep/Task semantics on the custom loop; window lengths are multiples of '
                       '1/1024 s (float rounding for other lengths is not explored); count <= 5, <= 8 tasks x <= 6 entries.',
-        'scenarios': [{'module': 'worlds.prims.ratelimit', 'quick': 120000, 'thorough': 2000000}],
+        'scenarios': [{'module': 'worlds.prims.ratelimit', 'quick': 100000, 'thorough': 2000000}],
         'expected_probes': ['limiter_blocked', 'several_blocked', 'admitted_at_exact_expiry',
                             'later_arrival_admitted_first', 'window_full_at_admission'],
     },
@@ -61,7 +61,7 @@ CHECKS = {
         'level_note': 'Trusts CPython asyncio Task/Future cancellation semantics on the custom loop; prometheus is a '
                       'no-op fake whose time(metric, fut) awaits fut like the real one; num_slots <= 4, <= 6 keys, '
                       '<= 8 actors x <= 7 lookups, lifetimes are even multiples of 1/1024 s.',
-        'scenarios': [{'module': 'worlds.prims.tlcache', 'quick': 80000, 'thorough': 1600000}],
+        'scenarios': [{'module': 'worlds.prims.tlcache', 'quick': 60000, 'thorough': 1600000}],
         'expected_probes': ['hit', 'joined_inflight_load', 'load_failed', 'joined_load_failed', 'eviction',
                             'expired_entry_reloaded', 'probe_pass_full', 'cancel_first_looker',
                             'cancel_first_looker_with_joiners', 'cancel_joiner', 'hit_one_tick_before_expiry'],
